@@ -66,5 +66,6 @@ s = splice(s, "SEEDED-WAVE-7", seeded_table(lambda m: bool(re.search(r"_d\d$", m
 s = splice(s, "SEEDED-WAVE-8", seeded_table(lambda m: bool(re.search(r"_e\d$", m)), False, True))
 s = splice(s, "SEEDED-WAVE-9", seeded_table(lambda m: bool(re.search(r"_f\d$", m)), False, True))
 s = splice(s, "SEEDED-WAVE-10", seeded_table(lambda m: bool(re.search(r"_g\d$", m)), False, True))
+s = splice(s, "SEEDED-WAVE-11", seeded_table(lambda m: bool(re.search(r"_h\d$", m)), False, True))
 open(p, "w").write(s)
 print("DESIGN.md tables regenerated")
